@@ -4,7 +4,7 @@
 
 package localcachedmap
 
-//@ property C06
+//@ property C06 C12
 
 // lastmerged: ghost - the merged key GetOrCreate used for its lookup
 //@ ghost var lastmerged []byte
